@@ -147,6 +147,9 @@ def run(repo: Repo, rep: Report, tier: str) -> None:
         rep.samples.append({"rule": "R09.2", **{k: str(v) for k, v in s.items()}})
     rep.distinct.add(("R09.2", f"{res.skeletons} distinct blocks"))
     rep.floor("R09.2", 150)
+    for sp in sorted(set(res.sentinel_problems)):
+        rep.violation("R09.2", f"{M_BUILDER}::FieldUnpackerCodeBlockBuilder.build", f"look-up `{re.sub(r'_h\\d+_', '{}', sp)}` without the MISSING sentinel",
+                      "a key that is present with the value null is treated as absent: the alias no longer wins over the name / the default")
     # R09.3
     seen3 = set()
     for skel, lab in res.optional_alias_in_key:
